@@ -66,3 +66,16 @@ def generate(rng, tier):
 def nontrivial(case_text, obs, meta):
     body = case_text.split("] [")[0]
     return "10" in body.replace("110", "") or body.count("(") > 1
+
+COQ_TARGETS = ["FileSet.vo", "FileSetProofs.vo", "Props/C11.vo"]
+MANIFEST = {
+    "technique": "Rocq proof of model = line-feed-counting spec + differential run of the model (vm_compute) against the Go code",
+    "text": ("Theorems C11_* (coq/Props/C11.v) prove, for every list of files and every position, that the model of "
+             "FileSet.Position/File.Position (both binary searches, lazily built line table, AddFile layout) never panics "
+             "and equals the specification that counts line feeds in the CRLF-normalised content; plus round trip, "
+             "injectivity, non-overlap and unknown-position theorems. The hand-written model is tied to /repo by running "
+             "its definitions inside Coq against the implementation on enumerated and random file sets on every run."),
+    "note": ("Trusted: Coq kernel + vm_compute; the hand-written model (validated by the differential run only on the "
+             "generated cases); Go driver; positions non-negative; Go ints unbounded; decimal formatting of %d."),
+    "ref": "DESIGN.md section 6, C11",
+}
